@@ -269,6 +269,45 @@ Proof.
   reflexivity.
 Qed.
 
+(* ---------------- the tally summed over all torrents of a family ---------------- *)
+Definition tm_pid_count (q : N) (tm : tmap) : nat :=
+  list_sum (map (fun e => pid_count q (pm_entries (snd e))) tm).
+
+Lemma tm_pid_count_set q h pm tm :
+  tm_pid_count q (tm_set h pm tm) + pid_count q (pm_entries (tm_get h tm))
+  = tm_pid_count q tm + pid_count q (pm_entries pm).
+Proof.
+  unfold tm_pid_count, tm_get, tm_find, list_sum.
+  induction tm as [|[h' pm'] t IH]; cbn [tm_set map fold_right find fst snd option_map pm_entries].
+  - unfold pid_count. cbn. lia.
+  - destruct (N.eqb h' h) eqn:E; cbn [map fold_right find fst snd option_map]; lia.
+Qed.
+
+(* one announce moves the family-wide count of every id exactly as its messages say (id-stable case) *)
+Lemma fam_announce_tally_law cap shrink tm hash key st pid until take o1 o2 pm' rep removed q :
+  pmap_inv cap shrink (tm_get hash tm) ->
+  pm_announce cap (tm_get hash tm) key st pid until take o1 o2 = Ok (pm', rep, removed) ->
+  (forall p, removed = Some p -> p_id p = pid) ->
+  tm_pid_count q (tm_set hash pm' tm)
+  = fold_left (msg_delta q) (announce_msgs true st pid removed) (tm_pid_count q tm).
+Proof.
+  intros Hinv Ha Hsame.
+  pose proof (announce_tally_law cap shrink _ key st pid until take o1 o2 pm' rep removed q Hinv Ha Hsame) as Hlaw.
+  pose proof (tm_pid_count_set q hash pm' tm) as Hsum.
+  destruct (pm_announce_refines cap shrink _ (pm_entries (tm_get hash tm)) key st pid until take o1 o2 Hinv (Permutation_refl _))
+    as (pm2 & rep2 & rem2 & Ha2 & _ & _ & _ & Hrem & _).
+  rewrite Ha in Ha2. assert (E3 : rem2 = removed) by congruence. rewrite E3 in Hrem. clear Ha2 E3.
+  destruct Hinv as [Hnd _].
+  pose proof (pid_count_remove q key (pm_entries (tm_get hash tm)) Hnd) as Hge. rewrite <- Hrem in Hge.
+  revert Hlaw Hsum Hge.
+  generalize (pid_count q (pm_entries pm')) (pid_count q (pm_entries (tm_get hash tm)))
+             (pid_count q (ref_remove key (pm_entries (tm_get hash tm))))
+             (tm_pid_count q (tm_set hash pm' tm)) (tm_pid_count q tm).
+  intros a b c T' T.
+  destruct st; destruct removed as [p|]; cbn [announce_msgs fold_left msg_delta];
+    try (rewrite (Hsame p eq_refl)); destruct (N.eqb pid q); intros; lia.
+Qed.
+
 (* ---------------- export protocol ---------------- *)
 Lemma fs_step_path_preserved spill s st : st <> FRename -> f_path (fs_step spill s st) = f_path s.
 Proof. destruct st; cbn; intros H; try reflexivity. congruence. Qed.
